@@ -678,7 +678,17 @@ func (w *worker) runDataset(idx int) {
 			// "does not exceed": the distance the server itself reports for an object, used as the
 			// radius (the same digits back), still includes that object
 			h := hits[len(hits)/2]
-			if h.hasRep && h.rep > 0 {
+			// (only where no other object lies within the index's float32 resolution of that distance:
+			// there the traversal order, and with it the cut-off, is decided by rounded rectangles -
+			// the same regime as the tolerance band of the ordering oracle)
+			lonely := true
+			for _, o := range sp {
+				if o.id != h.id && math.Abs(odist[o.id]-h.oracle) <= 2+1e-5*h.oracle {
+					lonely = false
+					break
+				}
+			}
+			if h.hasRep && h.rep > 0 && lonely {
 				q2 := q
 				q2.radius, q2.k, q2.dist = h.rep, len(sp)+10, true
 				a2 := []string{"NEARBY", d.key, "LIMIT", strconv.Itoa(q2.k), "DISTANCE", "IDS", "POINT", geo.F(q.lat), geo.F(q.lon), strconv.FormatFloat(h.rep, 'f', -1, 64)}
